@@ -14,8 +14,12 @@
 //	D  the same CSPRNG stream gives the same secret whatever K and the clock are
 //	   (the secret is a function of the CSPRNG stream and the arguments only).
 //
+//	E  (fault injection) when the CSPRNG stream fails after k bytes, k below the
+//	   number of bytes the healthy run drew, the entry point reports an error: no
+//	   secret is produced from a failed read (two further runs per case).
+//
 // A time-seeded local PRNG is invisible to B but fails A and D; the global
-// math/rand fails A, B, C and D.
+// math/rand fails A, B, C and D; an ignored read error fails E.
 package c38
 
 import (
@@ -27,6 +31,7 @@ import (
 	"encoding/binary"
 	"encoding/hex"
 	"encoding/json"
+	"errors"
 	"fmt"
 	"io"
 	"math/big"
@@ -65,6 +70,12 @@ type stream struct {
 	reads   int
 	buf     []byte
 	blockNo uint64
+	// fault injection (rule E): once failAt main-stream bytes have been served every further
+	// read of the main stream fails; the read that crosses the limit is a short read + error
+	failing bool
+	failAt  uint64
+	failErr error
+	failed  int // failed reads so far
 }
 
 func newStream(seed []byte) *stream {
@@ -89,6 +100,20 @@ func (s *stream) Read(p []byte) (int, error) {
 		s.one++
 		return 1, nil
 	}
+	if s.failing && s.off+uint64(len(p)) > s.failAt {
+		n := int(s.failAt - s.off)
+		for i := 0; i < n; i++ {
+			if len(s.buf) == 0 {
+				s.buf = s.block(0, s.blockNo)
+				s.blockNo++
+			}
+			p[i] = s.buf[0]
+			s.buf = s.buf[1:]
+		}
+		s.off += uint64(n)
+		s.failed++
+		return n, s.failErr
+	}
 	for i := range p {
 		if len(s.buf) == 0 {
 			s.buf = s.block(0, s.blockNo)
@@ -107,7 +132,17 @@ func (s *stream) total() int { return int(s.off + s.one) }
 // math/rand seeded with K; returns the bytes drawn and whether the global
 // math/rand stream is untouched afterwards.
 func pinned(seedS []byte, K int64, f func()) (drawn int, untouched bool) {
-	st := newStream(seedS)
+	d, _, u := pinnedStream(newStream(seedS), K, f)
+	return d, u
+}
+
+// pinnedStream is pinned on a prepared stream; also returns the main-stream byte count.
+func pinnedStream(st *stream, K int64, f func()) (drawn int, mainBytes int, untouched bool) {
+	d, u := pinnedOn(st, K, f)
+	return d, int(st.off), u
+}
+
+func pinnedOn(st *stream, K int64, f func()) (drawn int, untouched bool) {
 	old := crand.Reader
 	crand.Reader = st
 	mrand.Seed(K)
@@ -459,6 +494,8 @@ func genOp(t *rapid.T) *op {
 
 var realReader io.Reader = crand.Reader
 
+var errInjected = errors.New("injected entropy failure")
+
 // recordTx wraps msg into a Record transaction (the signed content is its unsigned serialization).
 func recordTx(msg []byte) interfaces.Transaction {
 	return functions.CreateTransaction(common2.TxVersion09, common2.Record, 0, &payload.Record{Type: "c38", Content: msg},
@@ -475,6 +512,8 @@ func init() {
 type runResult struct {
 	views     []secretView
 	drawn     int
+	mainBytes int // bytes drawn from the main stream (without the optional one-byte reads)
+	failed    int // reads that failed (fault injection only)
 	untouched bool
 	err       error
 	panicked  bool
@@ -490,9 +529,28 @@ func execute(o *op, seedS []byte, K int64) runResult {
 		return r
 	}
 	defer os.RemoveAll(dir)
-	r.drawn, r.untouched = pinned(seedS, K, func() {
+	r.drawn, r.mainBytes, r.untouched = pinnedStream(newStream(seedS), K, func() {
 		r.panicked, r.panicVal, r.frame = vk.Catch(func() { r.views, r.err = o.run(dir) })
 	})
+	return r
+}
+
+// executeFailing runs o with a CSPRNG stream that is identical to stream(seedS) for its first
+// failAt bytes and fails from there on.
+func executeFailing(o *op, seedS []byte, K int64, failAt int, ferr error) runResult {
+	var r runResult
+	dir, err := os.MkdirTemp("", "c38")
+	if err != nil {
+		r.err = fmt.Errorf("harness: %v", err)
+		return r
+	}
+	defer os.RemoveAll(dir)
+	st := newStream(seedS)
+	st.failing, st.failAt, st.failErr = true, uint64(failAt), ferr
+	r.drawn, r.mainBytes, r.untouched = pinnedStream(st, K, func() {
+		r.panicked, r.panicVal, r.frame = vk.Catch(func() { r.views, r.err = o.run(dir) })
+	})
+	r.failed = st.failed
 	return r
 }
 
@@ -570,6 +628,57 @@ func TestSecretsFromCSPRNG(t *testing.T) {
 				fails = append(fails, fmt.Sprintf("B: run %d advanced the global math/rand generator", i))
 				break
 			}
+		}
+		// ---- rule E: fault injection.  The healthy run (S1,K1) drew mainBytes bytes; with the
+		// same stream failing after k < mainBytes bytes some read of secret material must fail,
+		// and then no secret may come out: the entry point has to report an error.
+		if need := runs[0].mainBytes; need > 0 && len(fails) == 0 {
+			k := rapid.IntRange(0, need-1).Draw(t, "failAfter")
+			switch rapid.IntRange(0, 3).Draw(t, "failEdge") {
+			case 0:
+				k = 0
+			case 1:
+				k = need - 1
+			}
+			ferr := rapid.SampledFrom([]error{errInjected, io.EOF, io.ErrUnexpectedEOF}).Draw(t, "failErr")
+			o.desc["fail_after_bytes"], o.desc["fail_error"], o.desc["healthy_bytes"] = k, ferr.Error(), need
+			f1 := executeFailing(o, S1, K1, k, ferr)
+			f2 := executeFailing(o, S2, K1, k, ferr)
+			vk.Count("fault_runs", 2)
+			blameE := o.kind
+			if o.kind == "keystore-master-key" {
+				blameE = "keystore-master-key-iv"
+				if k >= 48 {
+					blameE = "ecdsa-private-key" // master key and IV were read in full, the account key read fails
+				}
+			}
+			if o.kind == "ecies-ephemeral-key" {
+				blameE = "ecies-ephemeral-key-iv"
+			}
+			for i, f := range []runResult{f1, f2} {
+				if f.failed == 0 {
+					t.Fatalf("harness: %s did not hit the injected failure at %d of %d bytes (run %d)", o.name, k, need, i)
+				}
+				if f.panicked {
+					vk.Class("fault/" + o.name + "/panic")
+					vk.Report(t, "C38:"+blameE+":panic-on-failed-os-csprng-read:"+f.frame, fmt.Sprintf("%s with crypto/rand.Reader failing (%v) after %d of %d bytes: panic %v", o.name, ferr, k, need, f.panicVal), o.desc)
+					return
+				}
+				if f.err == nil {
+					same := ""
+					if f1.err == nil && f2.err == nil && len(f1.views) > 0 && len(f2.views) > 0 && bytes.Equal(f1.views[0].data, f2.views[0].data) {
+						same = "; two different CSPRNG streams gave the SAME secret"
+					}
+					vk.Class("fault/" + o.name + "/secret-produced")
+					vk.Report(t, "C38:"+blameE+":secret-produced-after-failed-os-csprng-read", fmt.Sprintf("%s returned a secret although crypto/rand.Reader failed (%v) after %d of the %d bytes it needs%s", o.name, ferr, k, need, same), o.desc)
+					return
+				}
+				if !f.untouched {
+					vk.Report(t, "C38:"+blameE+":not-only-from-os-csprng", o.name+": E: fell back to the global math/rand after a failed crypto/rand read", o.desc)
+					return
+				}
+			}
+			vk.Class("fault/" + o.name + "/error-returned")
 		}
 		vk.Count("runs", 3)
 		vk.Count("csprng_bytes_drawn", int64(runs[0].drawn+runs[1].drawn+runs[2].drawn))
